@@ -420,6 +420,8 @@ def static_check(out, prog, case):
 
 
 def check_case(case):
+    if "prog" not in case and "source" in case:
+        return check_template_case(case)
     prog = case["prog"]
     script = case.get("script") or {"BUTTON": [1, 0, 1, 1, 0, 1, 0, 0] * 6, "POINT": [3, 4, 5, 6, 7, 8, 1, 2] * 6, "INKEY$": ["K", "", "Q", "Z", "", "M", "A", "7"] * 6,
                                     "JOYSTK": [5, 9, 33, 60, 2, 7, 11, 63] * 6, "INPUT": [3, 4, 5, 6, 7, 8]}
@@ -494,6 +496,32 @@ _PROC_OF = {"JOYSTK": "ecb_joystk", "INT": "ecb_int", "VAL": "ecb_val", "INSTR":
 _TEMPLATE_NAMES = [["var", "A"], ["svar", "A"], ["var", "B"], ["var", "C"], ["var", "I"], ["var", "ZN"], ["svar", "ZS"], ["arr", "ZQ", []], ["var", "ZI"]]
 
 
+def check_template_case(case):
+    """The static oracle on one source text (a statement template in a block context)."""
+    from collections import Counter
+
+    src = case["source"]
+    status, out = tool.try_convert(src, initialize_vars=True)
+    case["_status"] = status
+    if status != "ok":
+        # every template converts in every context on the unchanged tree (measured): a refusal or a crash means a statement of the fragment,
+        # and the calls in it, were lost
+        raise Violation("the tool does not translate %r (%s: %s): every statement template is translated in every block context on the unchanged tree"
+                        % (src, status, out[:120]), case)
+    static_check(out, _TEMPLATE_NAMES, case)
+    want = Counter()
+    for m in _CALL_RE.finditer(src):
+        want[_PROC_OF[m.group(1) or m.group(2) or m.group(3)]] += 1
+    got = Counter()
+    for ln in parse.parse_program(out):
+        for s_ in ln.stmts:
+            if s_.kind == "run" and s_.name.lower() in want.keys() | set(_PROC_OF.values()):
+                got[s_.name.lower()] += 1
+    if got != want:
+        raise Violation("the source holds %s converted functions, the emitted text runs %s" % (dict(want), dict(got)), case)
+    return None
+
+
 def enumerate_contexts(part, nparts, switches=frozenset()):
     """Every statement template of the grammar (the C07 / C10 table) with an operand that must become a call (INT(A), HEX$(A)), in every block
     context: statically, no temporary is read before its statement group assigns it, and the emitted text holds exactly one RUN per converted
@@ -526,31 +554,14 @@ def enumerate_contexts(part, nparts, switches=frozenset()):
                 continue
             src = ctx.format(s=st_)
             case = {"source": src}
-            status, out = tool.try_convert(src, initialize_vars=True)
             stats.evaluations += 1
             stats.classes["context_" + cname] += 1
-            stats.classes["status_" + status] += 1
-            if status != "ok":
-                # every template converts in every context on the unchanged tree (measured): a refusal or a crash means a statement of the fragment,
-                # and the calls in it, were lost
-                stats.fail("the tool does not translate %r (%s: %s): every statement template is translated in every block context on the unchanged tree"
-                           % (src, status, out[:120]), case)
-                return stats
             try:
-                static_check(out, _TEMPLATE_NAMES, case)
-                want = Counter()
-                for m in _CALL_RE.finditer(src):
-                    want[_PROC_OF[m.group(1) or m.group(2) or m.group(3)]] += 1
-                got = Counter()
-                for ln in parse.parse_program(out):
-                    for s_ in ln.stmts:
-                        if s_.kind == "run" and s_.name.lower() in want.keys() | set(_PROC_OF.values()):
-                            got[s_.name.lower()] += 1
-                if got != want:
-                    raise Violation("the source holds %s converted functions, the emitted text runs %s" % (dict(want), dict(got)), case)
+                check_template_case(case)
             except Violation as v:
                 stats.fail(v.detail, v.case)
                 return stats
+            stats.classes["status_" + case.get("_status", "?")] += 1
             stats.nontrivial.add(core.digest(src))
     return stats
 
